@@ -47,6 +47,21 @@ fn main() {
         }
       }
     }
+    "feel" => {
+      // debug helper: vh feel "<text>" ["<feel context>"]: the text parsed as an expression (and evaluated) and as unary tests
+      let scope = match args.get(3) {
+        Some(c) => dmntk_feel::Scope::from(dmntk_feel_evaluator::evaluate_context(&dmntk_feel::Scope::default(), c).unwrap_or_else(|e| panic!("context: {}", e))),
+        None => dmntk_feel::Scope::default(),
+      };
+      match dmntk_feel_parser::parse_expression(&scope, &args[2], false) {
+        Ok(n) => println!("expression: {:?}\nvalue: {:?}", n, dmntk_feel_evaluator::evaluate(&scope, &n).map(|v| v.to_string())),
+        Err(e) => println!("expression: ERR {}", e),
+      }
+      match dmntk_feel_parser::parse_unary_tests(&scope, &args[2], false) {
+        Ok(n) => println!("unary tests: {:?}", n),
+        Err(e) => println!("unary tests: ERR {}", e),
+      }
+    }
     "dmn" => {
       // debug helper: vh dmn <file.dmn> <invocable> "<feel context>"
       let xml = std::fs::read_to_string(&args[2]).unwrap();
